@@ -510,12 +510,17 @@ def make_db(rng, ntables=3, max_rows=30):
 
 
 def setup_stmts(tables):
+    """tables: (name, cols, rows) or (name, cols, rows, "virtual") - a virtual table exists only on the reference
+    side (the SQL text produces the same rows itself, e.g. from generate_series)"""
     out = []
-    for name, cols, rows in tables:
+    for t in tables:
+        if len(t) > 3 and t[3] == "virtual":
+            continue
+        name, cols, rows = t[:3]
         out.append(gen.create_table(name, cols))
         out += gen.insert_rows(name, cols, rows)
     return out
 
 
 def sx_db(tables):
-    return "(" + " ".join(sx_rows(rows) for _, _, rows in tables) + ")"
+    return "(" + " ".join(sx_rows(t[2]) for t in tables) + ")"
